@@ -4,11 +4,17 @@ import (
 	"strings"
 	"time"
 
+	abci "github.com/cometbft/cometbft/abci/types"
+
 	storetypes "github.com/cosmos/cosmos-sdk/store/types"
 	sdk "github.com/cosmos/cosmos-sdk/types"
 	authtypes "github.com/cosmos/cosmos-sdk/x/auth/types"
 
+	"github.com/unification-com/mainchain/x/beacon"
 	"github.com/unification-com/mainchain/x/enterprise"
+	"github.com/unification-com/mainchain/x/stream"
+	streamtypes "github.com/unification-com/mainchain/x/stream/types"
+	"github.com/unification-com/mainchain/x/wrkchain"
 	entkeeper "github.com/unification-com/mainchain/x/enterprise/keeper"
 	enttypes "github.com/unification-com/mainchain/x/enterprise/types"
 	"github.com/unification-com/mainchain/zz_verif/rt"
@@ -435,12 +441,18 @@ func H_C03_BeginBlock() {
 	supply0 := ee.Bank.SupplyOf("nund")
 	bal0, bal1 := ee.Bank.Bal(Addr(0), "nund"), ee.Bank.Bal(Addr(1), "nund")
 
-	panicked := rt.Catch(func() { enterprise.BeginBlocker(ctx, k) })
+	// through the module's ABCI glue (what the module manager calls each block), then EndBlock
+	am := enterprise.NewAppModule(nil, k, ee.Bank, ee.Bank, nil)
+	panicked := rt.Catch(func() { am.BeginBlock(ctx, abci.RequestBeginBlock{}) })
 	rt.Assert("C14.beginblock-no-panic", !panicked)
 	if panicked {
 		return
 	}
 	rt.Reach("beginblock-ok")
+	afterBegin, bankAfterBegin := ee.MS.Snapshot(), ee.Bank.Clone()
+	var updates []abci.ValidatorUpdate
+	panickedEnd := rt.Catch(func() { updates = am.EndBlock(ctx, abci.RequestEndBlock{}) })
+	rt.Assert("C14.endblock-no-panic-no-effect", rt.And(!panickedEnd, rt.And(len(updates) == 0, rt.And(ee.MS.SameAs(afterBegin), ee.Bank.SameAs(bankAfterBegin)))))
 	// accepted(pre) -> completed(post), minted and locked exactly once
 	minted := sdk.ZeroInt()
 	add := [2]sdk.Int{sdk.ZeroInt(), sdk.ZeroInt()}
@@ -616,4 +628,47 @@ func coinsOf(denom string, amt sdk.Int) sdk.Coins {
 		return sdk.Coins{}
 	}
 	return sdk.Coins{sdk.NewCoin(denom, amt)}
+}
+
+// H_C14_ModuleHooks: the ABCI block hooks of the stream, WRKChain and BEACON modules (called by the
+// module manager in every block) neither panic nor touch any state, whatever the state is.
+func H_C14_ModuleHooks() {
+	now := AnyBlockTime("now")
+	switch rt.Choose(3) {
+	case 0:
+		se := NewStreamEnv(now)
+		_ = se.K.SetParams(se.Ctx, streamtypes.Params{ValidatorFee: AnyValidatorFee("valFee")})
+		setupStream(se, "nund")
+		snap, bank := se.MS.Snapshot(), se.Bank.Clone()
+		am := stream.NewAppModule(nil, se.K, se.Bank, se.Bank)
+		var ups []abci.ValidatorUpdate
+		panicked := rt.Catch(func() {
+			am.BeginBlock(se.Ctx, abci.RequestBeginBlock{})
+			ups = am.EndBlock(se.Ctx, abci.RequestEndBlock{})
+		})
+		rt.Assert("C14.stream-hooks-no-panic-no-effect", rt.And(!panicked, rt.And(len(ups) == 0, rt.And(se.MS.SameAs(snap), se.Bank.SameAs(bank)))))
+	case 1:
+		we := NewWrkEnv(now)
+		setupWrk(we, 1)
+		snap := we.MS.Snapshot()
+		am := wrkchain.NewAppModule(nil, we.K, we.Bank, we.Bank, nil)
+		var ups []abci.ValidatorUpdate
+		panicked := rt.Catch(func() {
+			am.BeginBlock(we.Ctx, abci.RequestBeginBlock{})
+			ups = am.EndBlock(we.Ctx, abci.RequestEndBlock{})
+		})
+		rt.Assert("C14.wrkchain-hooks-no-panic-no-effect", rt.And(!panicked, rt.And(len(ups) == 0, we.MS.SameAs(snap))))
+	default:
+		be := NewBeaconEnv(now)
+		setupBeacon(be, 1)
+		snap := be.MS.Snapshot()
+		am := beacon.NewAppModule(nil, be.K, be.Bank, be.Bank, nil)
+		var ups []abci.ValidatorUpdate
+		panicked := rt.Catch(func() {
+			am.BeginBlock(be.Ctx, abci.RequestBeginBlock{})
+			ups = am.EndBlock(be.Ctx, abci.RequestEndBlock{})
+		})
+		rt.Assert("C14.beacon-hooks-no-panic-no-effect", rt.And(!panicked, rt.And(len(ups) == 0, be.MS.SameAs(snap))))
+	}
+	rt.Reach("end")
 }
